@@ -1,0 +1,66 @@
+//! Verification hooks (cargo feature `verif-hooks`; compiled out otherwise).
+//!
+//! * a thread-local recorder for the pointer values formed by the mutable
+//!   row/column iterators, so that pointers which are formed but never
+//!   dereferenced can still be range-checked from outside;
+//! * thin public wrappers that *call* crate-private pure functions, so
+//!   that they can be evaluated on arguments no allocation could reach.
+//!
+//! Nothing here contains logic of its own.
+
+use crate::Matrix;
+use crate::error::Result;
+use crate::index::{AxisIndex, Index, WrappingIndex};
+use crate::order::Order;
+use crate::shape::{AxisShape, Shape};
+use std::cell::RefCell;
+
+thread_local! {
+    static PTRS: RefCell<Vec<(&'static str, usize)>> = const { RefCell::new(Vec::new()) };
+}
+
+/// Records a pointer value formed at `site`.
+pub fn record_ptr(site: &'static str, addr: usize) {
+    PTRS.with(|p| p.borrow_mut().push((site, addr)));
+}
+
+/// Returns and clears the pointer values recorded on this thread.
+pub fn take_ptrs() -> Vec<(&'static str, usize)> {
+    PTRS.with(|p| std::mem::take(&mut *p.borrow_mut()))
+}
+
+fn axis_shape(order: Order, shape: (usize, usize)) -> AxisShape {
+    Shape::new(shape.0, shape.1).to_axis_shape_unchecked(order)
+}
+
+/// `Matrix::<T>::check_size(size)`.
+pub fn check_size<T>(size: usize) -> Result<usize> {
+    Matrix::<T>::check_size(size)
+}
+
+/// `Shape::new(nrows, ncols).try_to_axis_shape(order)` as `(major, minor)`.
+pub fn try_to_axis_shape(nrows: usize, ncols: usize, order: Order) -> Result<(usize, usize)> {
+    Shape::new(nrows, ncols)
+        .try_to_axis_shape(order)
+        .map(|shape| (shape.major(), shape.minor()))
+}
+
+/// `Index::from_flattened(index, order, shape)` for a matrix of logical `shape`.
+pub fn index_from_flattened(index: usize, order: Order, shape: (usize, usize)) -> Index {
+    Index::from_flattened(index, order, axis_shape(order, shape))
+}
+
+/// `Index::to_flattened(order, shape)` for a matrix of logical `shape`.
+pub fn index_to_flattened(index: Index, order: Order, shape: (usize, usize)) -> usize {
+    index.to_flattened(order, axis_shape(order, shape))
+}
+
+/// `AxisIndex::from_wrapping_index(index, order, shape)` as `(major, minor)`.
+pub fn from_wrapping_index(
+    index: WrappingIndex,
+    order: Order,
+    shape: (usize, usize),
+) -> (usize, usize) {
+    let index = AxisIndex::from_wrapping_index(index, order, axis_shape(order, shape));
+    (index.major, index.minor)
+}
